@@ -325,7 +325,14 @@ def inject_send_fault(session, fail_at):
     session._send = patched
 
 
-def session_events(driver, cfg, script, send_fault=None, lose=None, both=False):
+def _restore(pm, saved):
+    if "get_timeout" in saved:
+        pm.RPSPolicer.get_timeout = saved["get_timeout"]
+    if "sleep" in saved:
+        pm.sleep = saved["sleep"]
+
+
+def session_events(driver, cfg, script, send_fault=None, lose=None, both=False, mode="rec"):
     """Run client operations with a recording policer; returns the interleaved event string.
     lose = index of the datagram whose reply is lost once (the caller retries after the TimeoutError);
     both = the session is also given limit_rps (the explicit policer must still be the one consulted)."""
@@ -343,7 +350,25 @@ def session_events(driver, cfg, script, send_fault=None, lose=None, both=False):
     class Rec(pm.BasePolicer):
         def get_timeout(self, ts):
             events.append("W")
+            return 2000 if mode == "delay" else None
+
+    # mode "limit": the session is given limit_rps only; the RPSPolicer it builds is observed through its class
+    # mode "delay": the policer asks for a (tiny) delay; the async client must take it with asyncio.sleep, never with
+    #               the blocking sleep of wait_sync()
+    saved = {}
+    pol_kw = {"policer": Rec()}
+    if mode == "limit":
+        saved["get_timeout"] = pm.RPSPolicer.get_timeout
+
+        def rec_get_timeout(self_, ts):
+            events.append("W")
             return None
+
+        pm.RPSPolicer.get_timeout = rec_get_timeout
+        pol_kw = {"limit_rps": 50}
+    if mode == "delay":
+        saved["sleep"] = pm.sleep
+        pm.sleep = lambda s_: events.append("B")
 
     def responder(data, idx):
         events.append("D")
@@ -366,8 +391,9 @@ def session_events(driver, cfg, script, send_fault=None, lose=None, both=False):
 
     base = rb.oid_str(BASE)
     if driver == "sync":
-        w = drivers.SyncWorld(cfg, responder, timeout=tmo, policer=Rec(), max_repetitions=3, **extra)
+        w = None
         try:
+            w = drivers.SyncWorld(cfg, responder, timeout=tmo, max_repetitions=3, **pol_kw, **extra)
             s = w.session
             for op in script:
                 if op == "enter":
@@ -398,7 +424,9 @@ def session_events(driver, cfg, script, send_fault=None, lose=None, both=False):
             if w.errors:
                 raise drivers.MachineryError(str(w.errors[:2]))
         finally:
-            w.close()
+            if w is not None:
+                w.close()
+            _restore(pm, saved)
     else:
 
         async def client(s):
@@ -431,7 +459,10 @@ def session_events(driver, cfg, script, send_fault=None, lose=None, both=False):
                     s._to_refresh = True
                     await s.refresh()
 
-        o, reqs, errs = drivers.run_async(cfg, responder, client, timeout=tmo, policer=Rec(), max_repetitions=3, **extra)
+        try:
+            o, reqs, errs = drivers.run_async(cfg, responder, client, timeout=tmo, max_repetitions=3, **pol_kw, **extra)
+        finally:
+            _restore(pm, saved)
         if errs:
             raise drivers.MachineryError(str(errs[:2]))
         if o.kind != "ok":
@@ -443,15 +474,17 @@ def work_sessions(chunk):
     res = common.Result()
     for case in chunk:
         cfg = Cfg.from_desc(case["cfg"])
-        ev = session_events(case["driver"], cfg, case["script"], case.get("send_fault"), case.get("lose"), case.get("both", False))
+        ev = session_events(case["driver"], cfg, case["script"], case.get("send_fault"), case.get("lose"), case.get("both", False), case.get("mode", "rec"))
         res.count("session_scripts")
         res.count("calls", ev.count("D"))
         res.distinct()
         res.outcome("session")
         n = ev.count("D")
+        if case.get("mode") == "delay" and case["driver"] == "sync":
+            ev = ev.replace("WB", "W")  # the sync client takes the delay with the blocking sleep: that is its job
         if ev != "WD" * n or n == 0:
             res.violation(
-                "session/%s/%s/%s%s" % (case["driver"], cfg.name, "+".join(case["script"]), ("/EAGAIN-on-send" if case.get("send_fault") is not None else "") + ("/reply-lost" if case.get("lose") is not None else "") + ("/policer+limit_rps" if case.get("both") else "")),
+                "session/%s/%s/%s%s" % (case["driver"], cfg.name, "+".join(case["script"]), ("/EAGAIN-on-send" if case.get("send_fault") is not None else "") + ("/reply-lost" if case.get("lose") is not None else "") + ("/policer+limit_rps" if case.get("both") else "") + ("/" + case["mode"] if case.get("mode") else "")),
                 "policer waits (W) and datagrams (D) interleave as %r, expected one wait before every datagram" % ev,
                 case,
             )
@@ -474,7 +507,7 @@ def replay(case):
         rels, delays, prob = run_path(case["delta"], case["t0"], case["gaps"])
         return {"releases": rels, "delays": delays, "problem": prob}
     if "script" in case:
-        return {"events": session_events(case["driver"], Cfg.from_desc(case["cfg"]), case["script"], case.get("send_fault"), case.get("lose"), case.get("both", False))}
+        return {"events": session_events(case["driver"], Cfg.from_desc(case["cfg"]), case["script"], case.get("send_fault"), case.get("lose"), case.get("both", False), case.get("mode", "rec"))}
     r = common.Result()
     work_misc([0])
     return {"misc": "re-run"}
@@ -489,7 +522,7 @@ def run(tier):
         "checked to be within 1 ns of 1/rps). (a) all paths of K calls over gaps {0..2d+1, kd-1..kd+1, 10^6 d+j} for d<=5 from 4 time offsets; "
         "(b) BFS over all phase states for d in {2,5,8,13,64,1000} (complete) and to a bounded depth for d in {10^8,333333333,10^12} with invariants 0<delay<=d, slot advance >= d, phase in [0,d); "
         "(c) constructor refusals; (d) wait()/wait_sync() sleep == delay; (e) one policer wait before every datagram of both clients: every request type, session entry with engine-id discovery, a reply lost mid-walk and the iterator asked again, "
-        "policer and limit_rps given together, and (async) EAGAIN injected at the k-th send for every k."
+        "policer and limit_rps given together, limit_rps alone for every version, a policer asking for a delay (async: never taken with the blocking sleep), and (async) EAGAIN injected at the k-th send for every k."
     )
     rec.assume(
         "monotonic clock and sequential use as stated in the property (each call is made at or after the previous release)",
@@ -532,6 +565,13 @@ def run(tier):
                 sess.append({"driver": driver, "cfg": Cfg("v2c").describe(), "script": [op, "get"], "lose": k})
         for sc in (["get", "get_many", "get"], ["getbulk"]):
             sess.append({"driver": driver, "cfg": Cfg("v2c").describe(), "script": sc, "both": True})
+    # limit_rps alone (the session builds its own RPSPolicer) for every version; a policer that asks for a delay
+    for driver in ("sync", "async"):
+        for cfg in (Cfg("v1"), Cfg("v2c"), Cfg("v3"), Cfg("v3", auth=2, priv=2, discover=True)):
+            pre = ["enter"] if cfg.version == "v3" else []
+            for sc in (["get", "get_many", "get"], ["getnext"], ["fetch"]):
+                sess.append({"driver": driver, "cfg": cfg.describe(), "script": pre + sc, "mode": "limit"})
+            sess.append({"driver": driver, "cfg": cfg.describe(), "script": pre + ["get", "getnext", "get_many"], "mode": "delay"})
     # environment deviation (one per run): EAGAIN on the k-th send of the async client, for every k
     for cfg in (Cfg("v2c"), Cfg("v3", auth=2, priv=2, discover=True)):
         for sc, n in ((["get", "get_many", "get"], 3), (["getnext"], 8), (["getbulk", "get"], 4), (["fetch"], 3)):
